@@ -227,6 +227,17 @@ def build_cases(tier, wd):
                      f"<msubsup>{a}{b}{c}</msubsup>", f"<munderover><mo>∑</mo>{a}{b}</munderover>", f"<mroot>{a}{b}</mroot>", f"<msub><mi>x</mi>{a}</msub>{b}",
                      f"<mtable><mtr><mtd>{a}</mtd><mtd>{b}</mtd></mtr></mtable>", f"<msqrt>{a}{b}</msqrt>"):
             cases.append({"mathml": f"<math>{body}</math>", "origin": "adjacent-wrappers", "idmode": "none", "spicy": True, "locale": None})
+    # runs of three and four adjacent wrappers whose attributes alternate (red blue red): merging wrappers with equal attributes must
+    # not reach across one that differs (the content would change places)
+    wraps = ["mstyle mathcolor='red'", "mstyle mathcolor='blue'", "mstyle", "mpadded width='1em'"]
+    contents = ["<mi>a</mi>", "<mo>-</mo><mi>b</mi>", "<mo>+</mo><mi>c</mi>", "<mn>4</mn><mi>z</mi>"]
+    for n in (3, 4):
+        for combo in itertools.product(range(len(wraps)), repeat=n):
+            if len(set(combo)) < 2:
+                continue
+            body = "".join(f"<{wraps[w]}>{contents[i]}</{wraps[w].split()[0]}>" for i, w in enumerate(combo))
+            for h in (("<math>{}</math>", "<math><msqrt>{}</msqrt></math>") if n == 3 or tier == "thorough" else ("<math>{}</math>",)):
+                cases.append({"mathml": h.format(body), "origin": "adjacent-wrappers", "idmode": "none", "spicy": True, "locale": None})
     # tokens that canonicalization SPLITS into several elements (points under an arc / bar / arrow or after a shape, chemical
     # formulas, function name glued to its argument, digits glued to letters, 'dx'): new elements come out of one token, so what
     # happens to the author's id and attributes on that token matters - every id mode, tokens as mi and mtext
@@ -252,6 +263,15 @@ def build_cases(tier, wd):
             continue
         for m in mutants(c["mathml"], rng, limit=2 if tier == "quick" else 8):
             cases.append({"mathml": m, "origin": "suite-mutant:" + c["src"], "idmode": "asis", "spicy": False, "locale": None})
+    # re-sent expressions: what an application that EDITS the expression sends back - the elements set_mathml returned, with the
+    # ids it gave them, inside new material that has no ids yet - in the SAME session.  All ids still have to be distinct, and the
+    # ids that came back are now the author's.
+    resend_templates = ["<math><mfrac><mrow>${LASTBODY}</mrow><mn>2</mn></mfrac></math>", "<math>${LASTBODY}<mo>+</mo><mi>q</mi></math>",
+                        "<math><msqrt>${LASTBODY}</msqrt><mo>=</mo><msup><mi>r</mi><mn>2</mn></msup></math>"]
+    r4 = random.Random(C.seed() * 9173)
+    base_pool = [c for c in cases if c["origin"] in ("model", "split-token") and len(c["mathml"]) < 1500]
+    for k, c in enumerate(r4.sample(base_pool, min(len(base_pool), 400 if tier == "quick" else 6000))):
+        cases.append({"mathml": resend_templates[k % 3], "after": c["mathml"], "origin": "re-sent", "idmode": c["idmode"], "spicy": c["spicy"], "locale": c["locale"]})
     return cases, {"abstract_trees": len(abstract), "deep_trees": len(deep), "tlc_states": r["distinct"], "tlc_transitions": r["states"]}
 
 
@@ -270,15 +290,35 @@ def run_cases(cases, wd):
             chunk = idxs[b:b + 150]
             ops = [{"op": "set_rules_dir", "dir": "$RULES", "setup": True}] + locale_ops(loc)
             nsetup = len(ops)
-            ops += [{"op": "set_mathml", "mathml": cases[i]["mathml"]} for i in chunk]
+            for i in chunk:
+                if "after" in cases[i]:
+                    ops.append({"op": "set_mathml", "mathml": cases[i]["after"]})
+                ops.append({"op": "set_mathml", "mathml": cases[i]["mathml"]})
             scripts.append({"id": f"canon{len(scripts)}", "isolate_on_panic": True, "ops": ops})
             index.append((nsetup, chunk))
     results = C.run_mcv(scripts, wd, name="canon")
     out = [None] * len(cases)
     for (nsetup, chunk), res in zip(index, results):
-        for i, rr in zip(chunk, res["results"][nsetup:]):
-            out[i] = rr
+        rs = iter(res["results"][nsetup:])
+        for i in chunk:
+            if "after" in cases[i]:
+                first = next(rs)
+                cases[i]["_base_out"] = first["v"] if first["r"] == "ok" else None
+            out[i] = next(rs)
+            if "after" in cases[i] and cases[i]["_base_out"] is None and out[i]["r"] == "ok":
+                out[i] = {"r": "err", "v": "the expression to re-send was not accepted", "ms": 0}      # nothing to re-send: not judged
     return out
+
+
+def resent_input(c):
+    """The input of a case as the library saw it (${LASTBODY} = the children of <math> of what the previous set_mathml returned)."""
+    if "after" not in c:
+        return c["mathml"]
+    o = c.get("_base_out") or ""
+    a = o.find("<math")
+    a = o.find(">", a) + 1 if a >= 0 else 0
+    b = o.rfind("</math>")
+    return c["mathml"].replace("${LASTBODY}", o[a:b] if 0 < a <= b else "")
 
 
 def events_for(cases, results):
@@ -289,7 +329,7 @@ def events_for(cases, results):
             stats["err" if r["r"] == "err" else "panic"] += 1
             continue   # inputs on which set_mathml does not return Ok are outside C01/C02/C09 (they are C08's)
         stats["ok"] += 1
-        tin = mml.parse(c["mathml"])
+        tin = mml.parse(resent_input(c))
         tout = mml.parse(r["v"], expand=False)
         if tin is None:
             stats["input_unparsed"] += 1
@@ -322,12 +362,12 @@ def run(pid, tier):
         c = cases[back[idx - 1]]
         r = results[back[idx - 1]]
         ops = [{"op": "set_rules_dir", "dir": "$RULES"}] + locale_ops(tuple(c["locale"]) if c["locale"] else None) + \
-              [{"op": "set_mathml", "mathml": c["mathml"]}]
-        text = f"{reason} input={shape_key(c['mathml'])[:400]} output={mml.rename_ids(re.sub(chr(10) + ' *', '', r['v']))[:500]}"
-        verdict.reject(f"{reason}|{shape_key(c['mathml'])}", text, {"script": ops, "origin": c["origin"]},
-                       text=f"{reason} {shape_key(c['mathml'])}")
+              ([{"op": "set_mathml", "mathml": c["after"]}] if "after" in c else []) + [{"op": "set_mathml", "mathml": c["mathml"]}]
+        text = f"{reason} input={shape_key(resent_input(c))[:400]} output={mml.rename_ids(re.sub(chr(10) + ' *', '', r['v']))[:500]}"
+        sk = shape_key(c["mathml"]) + ("|after|" + shape_key(c["after"]) if "after" in c else "")
+        verdict.reject(f"{reason}|{sk}", text, {"script": ops, "origin": c["origin"]}, text=f"{reason} {sk}")
     rc = verdict.finish(wd)
-    nontrivial = len({shape_key(cases[i]["mathml"]) for i in back})
+    nontrivial = len({shape_key(cases[i]["mathml"]) + shape_key(cases[i].get("after", "")) for i in back})
     changed = sum(1 for e in events if e["hasInp"] and len(e["out"]["kids"]) and e["inp"] != e["out"])
     C.write_evidence(pid, tier, "model_checking", {
         "states": gen["tlc_states"], "transitions": gen["tlc_transitions"],
